@@ -254,3 +254,26 @@ func SymBytes(name string, n int, taint uint64) *sym.Term {
 	sym.SetBytesLen(t, n)
 	return t
 }
+
+// ElemPtr returns the address of element i of the array p points to.
+func (ex *Exec) ElemPtr(p *Ptr, i int64) *Ptr {
+	if p.View {
+		return ex.indexPtr(p, sym.ConstI(i))
+	}
+	return p.extend(Step{Field: -1, Index: sym.ConstI(i)})
+}
+
+// FieldPtr returns the address of field f of the struct p points to.
+func (ex *Exec) FieldPtr(p *Ptr, f int) *Ptr { return p.extend(Step{Field: f}) }
+
+// PtrToNewObject builds the content of a pointer-typed package-level variable:
+// a fresh object (of the pointee type) with the given content.
+func (ex *Exec) PtrToNewObject(g *ssa.Global, content *Cell) *Cell {
+	pt := g.Type().Underlying().(*types.Pointer).Elem() // type of the variable
+	et := pt
+	if p, ok := pt.Underlying().(*types.Pointer); ok {
+		et = p.Elem()
+	}
+	o := ex.newObj(g.Name()+"*", et, Origin{Kind: "global", Root: globalKey(g)}, content)
+	return &Cell{V: &Ptr{Obj: o}}
+}
